@@ -154,6 +154,11 @@ fn check_purge_local(set_before: &Set, set_after: &Set, purged: &[(Key, HLCTimes
     if !p.iter().all(|e| db.contains(e)) {
         viol.push(("C08/purge-returned-non-tombstone".into(), format!("purge returned {} but tombstones were {}", fmt_list(&p), fmt_list(&db))));
     }
+    // "removes only tombstones": whatever the purge names is handed to Storage::remove_tombstones,
+    // so it must not name an id that is live on this replica
+    if let Some((k, t)) = p.iter().find(|(k, _)| lb.iter().any(|(lk, _)| lk == k)) {
+        viol.push(("C08/purge-named-a-live-id".into(), format!("purge returned {k}@{} although key {k} is live ({}); the store would drop a live document", fmt_ts(*t), fmt_list(&lb))));
+    }
     if da != expect {
         viol.push(("C08/purge-removed-more-than-it-returned".into(), format!("tombstones after purge {} expected {}", fmt_list(&da), fmt_list(&expect))));
     }
